@@ -89,12 +89,7 @@ def run(ctx):
         ctx.violation(f"spec:{v.name}", {"config": consts, "trace": [(h, s) for h, s in v.trace]})
     if res.violations:
         return
-    small = {"MaxVer": min(maxver, 5), "MaxSecrets": 1, "Indices": "{1, 3}"}
-    for inv in REACH:
-        (wd / "Reach.cfg").write_text(tlc.mk_cfg(constants=small, invariants=[inv]))
-        r = tlc.run(wd, "DbSpecCodecAlg", "Reach.cfg", workers=4)
-        if not r.violations:
-            raise RuntimeError(f"vacuous: {inv} is never violated")
+    _fn.require_reachable(ctx, wd, "DbSpecCodecAlg", {"MaxVer": min(maxver, 5), "MaxSecrets": 1, "Indices": "{1, 3}"}, REACH, together=False)
 
     # ---- (2) B3 -------------------------------------------------------------------------------------------------------
     env = {"DC_MAXVER": maxver, "DC_MAXSEC": maxsec, "DC_PAIRS": "0" if ctx.quick else "1",
